@@ -269,6 +269,16 @@ pub struct ProjectGenerator {
     rust_crate_deps: std::collections::HashMap<String, Option<String>>,
 }
 
+/// Spelling of a module name in a `mod` declaration: an Incan module may be named like a Rust keyword (`loop.incn`),
+/// which needs the raw form (`mod r#loop;` still resolves to `loop.rs`). `self`, `Self`, `super` and `crate` have no raw form.
+fn mod_ident(name: &str) -> String {
+    if incan_core::lang::rust_keywords::is_keyword(name) && !matches!(name, "self" | "Self" | "super" | "crate") {
+        format!("r#{}", name)
+    } else {
+        name.to_string()
+    }
+}
+
 impl ProjectGenerator {
     pub fn new(output_dir: impl AsRef<Path>, name: &str, is_binary: bool) -> Self {
         Self {
@@ -420,7 +430,7 @@ impl ProjectGenerator {
             // Add mod declarations for each module (sorted for deterministic output)
             let mut module_names: Vec<_> = modules.keys().collect();
             module_names.sort();
-            let mods: String = module_names.iter().map(|m| format!("mod {};\n", m)).collect();
+            let mods: String = module_names.iter().map(|m| format!("mod {};\n", mod_ident(m))).collect();
 
             // Insert right after the crate-level allow attribute line (if present),
             // otherwise prepend (best-effort).
@@ -508,7 +518,7 @@ impl ProjectGenerator {
             // Create mod.rs with pub mod declarations
             let mod_rs_content: String = submodules
                 .iter()
-                .map(|s| format!("pub mod {};", s))
+                .map(|s| format!("pub mod {};", mod_ident(s)))
                 .collect::<Vec<_>>()
                 .join("\n");
 
@@ -543,7 +553,7 @@ impl ProjectGenerator {
         let mut sorted_top: Vec<_> = top_level_modules.into_iter().collect();
         sorted_top.sort();
         if !sorted_top.is_empty() {
-            let mods: String = sorted_top.iter().map(|m| format!("mod {};\n", m)).collect();
+            let mods: String = sorted_top.iter().map(|m| format!("mod {};\n", mod_ident(m))).collect();
 
             if let Some(attr_pos) = full_main.find("#![allow(") {
                 let line_end = full_main[attr_pos..]
